@@ -24,7 +24,7 @@ MANIFEST = {
             'table-driven CRC on concrete blocks and the standard check values), z3. Structural (CBOR head) octet '
             'corruption and multi-burst errors are outside the claim.',
     'ref': '5 C08'}
-BOUNDS = {'quick': dict(out='CRC types {0,1,2} per block, shapes: payload only | + hop-count | + unknown block',
+BOUNDS = {'quick': dict(fwd='received with CRC values in place and forwarded whole / as >= 2 fragments (payload 120 octets)', eidflip='all 48 single-bit flips in the 6 octets of a node-ID-form EID text (concrete enumeration)', out='CRC types {0,1,2} per block, shapes: payload only | + hop-count | + unknown block',
                         gate='primary / payload / extension block', flip='CRC-16: block data 8 octets; positions: every data octet pair, crc field'),
           'thorough': dict(out='all 9 type combinations', gate='as quick', flip='CRC-16: block data 16 octets')}
 ASSUMPTIONS = [
